@@ -22,7 +22,7 @@ def run_monitored(case, oracles, **kw):
 
 KEEP = ("status", "exc", "viol", "viol_count", "cnt", "flags", "ncalls", "stop", "n_polls", "n_searches", "n_loops",
         "N_init", "budget", "message", "func_count", "iterations", "target_type", "oracle_error", "nfs", "n_final",
-        "n_gp_fits", "fault", "max_consec_noeval", "n_history", "fval", "mesh_size", "gp_fits", "second_status", "second_exc", "second_calls")
+        "n_gp_fits", "fault", "max_consec_noeval", "n_history", "fval", "mesh_size", "gp_fits", "second_status", "second_exc", "second_calls", "struct_notes")
 
 
 def slim(rec, case):
